@@ -128,7 +128,7 @@ func c03Units(ctx *core.Ctx) []core.Unit {
 				var next string
 				var err error
 				in := st.String() + " " + cfg
-				if !guard(r, "c03.panic", "CreateMultiProof", in, func() { got, next, err = implProofBytes(c, st) }) {
+				if !timed(r, "c03.panic", "CreateMultiProof", in, func() { got, next, err = implProofBytes(c, st) }) {
 					return
 				}
 				r.Evals++
